@@ -943,6 +943,53 @@ pub fn transcripts_equal(i: usize, j: usize) -> Option<F> {
     })
 }
 
+/// Run-independent fingerprint of a decision's condition: term ids are replaced by shadow values (for a difference a-b:
+/// the pair of shadows), so that "the same comparison" is recognised across re-executions whose term numbering differs.
+pub fn fingerprint(f: &F) -> u64 {
+    use std::collections::hash_map::DefaultHasher;
+    use std::hash::{Hash, Hasher};
+    fn go(a: &Arena, f: &F, h: &mut DefaultHasher) {
+        std::mem::discriminant(f).hash(h);
+        match f {
+            F::True | F::False => {}
+            F::EqZ(t) => match &a.nodes[*t as usize] {
+                Node::Sub(x, y) => {
+                    a.shadow[*x as usize].hash(h);
+                    a.shadow[*y as usize].hash(h);
+                }
+                _ => a.shadow[*t as usize].hash(h),
+            },
+            F::BlobLtQ(v) => a.vars[*v as usize].shadow.hash(h),
+            F::BlobEq(v, w) => {
+                a.vars[*v as usize].shadow.hash(h);
+                a.vars[*w as usize].shadow.hash(h);
+            }
+            F::BlobIsTerm(v, t) => {
+                a.vars[*v as usize].shadow.hash(h);
+                a.shadow[*t as usize].hash(h);
+            }
+            F::BlobConst(v, c) => {
+                a.vars[*v as usize].shadow.hash(h);
+                c.hash(h);
+            }
+            F::Not(x) => go(a, x, h),
+            F::And(xs) | F::Or(xs) => {
+                for x in xs {
+                    go(a, x, h)
+                }
+            }
+            F::Iff(x, y) | F::Imp(x, y) => {
+                go(a, x, h);
+                go(a, y, h)
+            }
+        }
+    }
+    with(|a| {
+        let mut h = DefaultHasher::new();
+        go(a, f, &mut h);
+        h.finish()
+    })
+}
 pub fn snapshot_decisions() -> Vec<Decision> {
     with(|a| a.decisions.clone())
 }
